@@ -58,6 +58,7 @@ type stratCase struct {
 	// options of the run (the same for the isolated attempts that make up the specification)
 	Levels          map[string]int `json:",omitempty"` // upgrade.Config: package -> upgrade.Level (None, Patch, Minor, Major)
 	MaxDepth        int            `json:",omitempty"`
+	Explicit        []string       `json:",omitempty"` // RemediationOptions.ExplicitVulns: only these ids are to be fixed (seed C16n: the re-resolution must not write to the options all attempts share)
 	FailVersions    []string       `json:",omitempty"` // resolve client: Versions(pkg) fails for these packages (a registry error)
 	ReverseVersions bool           `json:",omitempty"` // resolve client: Versions returns the list in descending order
 	FailReqOn       string         `json:",omitempty"` // resolve client: Requirements("pkg@version") fails: re-resolving a manifest that reaches it fails
@@ -249,6 +250,9 @@ func (e *stratEnv) fresh() (*guidedremediation.VerifResolvedManifest, options.Re
 	}
 	if e.c.MaxDepth != 0 {
 		opts.MaxDepth = e.c.MaxDepth
+	}
+	if len(e.c.Explicit) > 0 {
+		opts.ExplicitVulns = append([]string(nil), e.c.Explicit...)
 	}
 	res, err := guidedremediation.VerifResolveManifest(context.Background(), e.cl, e.vm, m, &opts)
 	if err != nil {
@@ -690,8 +694,14 @@ func optionUniverses() []stratCase {
 	c = npmRelaxUniverse(2, false, true, false)
 	c.FailReqOn = "bad@3.0.0" // … fail while re-resolving
 	cs = append(cs, c)
+	c = npmRelaxUniverse(3, true, true, false)
+	c.Explicit = []string{"ADV-A", "ADV-Z"} // two explicit vulnerabilities in different packages, the others are to be left alone: attempts run side by side
+	cs = append(cs, c)
 	// override
-	m := mavenOverrideUniverse(2, true, true)
+	m := mavenOverrideUniverse(3, true, true)
+	m.Explicit = []string{"ADV-A", "ADV-Z"}
+	cs = append(cs, m)
+	m = mavenOverrideUniverse(2, true, true)
 	m.Levels = map[string]int{"g:bad": levels["none"]}
 	cs = append(cs, m)
 	m = mavenOverrideUniverse(3, true, true)
